@@ -37,7 +37,9 @@ Nests == {"direct", "elem", "mapkey", "mapval", "alias", "nested",
           \* the payload / result IS the value (Payload(Int), Payload(ArrayOf(String)), Result(MapOf(String, Int)) ...)
           "whole", "whole_elem", "whole_mapval",
           \* a map of lists (query string only: qa1[k]=v1&qa1[k]=v2)
-          "mapval_elem"}
+          "mapval_elem",
+          \* a map attribute whose entries ARE the query string (MapParams("a1")): k1=v1&k2=v2
+          "mapparams"}
 Whole == {"whole", "whole_elem", "whole_mapval"}
 Deep == {"nested_mapkey", "nested_elem", "elem_nested", "mapval_nested", "mapkey_alias"}
 StrShapes == {"plain", "slash", "pcthex", "space", "uni", "plus"}
@@ -49,7 +51,7 @@ Absent == V("absent", 0, "plain", 0)
 Attr(k, l, m, r, ns) == [kind |-> k, loc |-> l, mode |-> m, rule |-> r, nest |-> ns]
 
 NumKinds == {"int", "uint", "float"} \cup WideKinds
-QueryMapNests == {"mapkey", "mapval", "mapval_elem", "whole_mapval"}
+QueryMapNests == {"mapkey", "mapval", "mapval_elem", "whole_mapval", "mapparams"}
 FloatKinds == {"float", "float32"}
 WFAttr(a) ==
   \* (the payload attribute behind a path parameter may be optional or carry a default: the generated decoder still hands a
@@ -59,7 +61,7 @@ WFAttr(a) ==
   /\ (a.loc = "cookie" => a.nest \in {"direct", "alias"} /\ a.kind # "bytes")
   /\ (a.loc \in {"query", "header"} => a.nest \in {"direct", "alias", "elem", "whole", "whole_elem"} \cup QueryMapNests /\ a.kind # "bytes")
   \* map-valued query parameters: qa1[key]=value; the whole payload as the query string (MapParams()): key=value
-  /\ (a.nest \in QueryMapNests => a.loc \in {"query", "body"} /\ (a.nest = "mapval_elem" => a.loc = "query" /\ a.kind \notin WideKinds \cup {"any"}))
+  /\ (a.nest \in QueryMapNests => a.loc \in {"query", "body"} /\ (a.nest \in {"mapval_elem", "mapparams"} => a.loc = "query" /\ a.kind \notin WideKinds \cup {"any"}))
   /\ (a.nest \in {"nested"} \cup Deep => a.loc = "body")
   /\ (a.mode = "treq" => a.loc \in {"query", "header"} /\ a.nest \in {"direct", "alias"})
   /\ (a.nest \in {"mapkey", "nested_mapkey", "mapkey_alias"} => a.kind \in {"string", "int"})
@@ -118,7 +120,7 @@ ValsOf(a) ==
        ELSE {[v EXCEPT !.cn = c] : v \in leaf, c \in (IF a.nest = "mapkey" THEN {1} ELSE {1, 2})}
 
 \* can the caller leave the attribute unset?  (Go: pointer field, nil slice or nil map)
-CanBeAbsent(a) == a.mode \in {"optional", "treq"} \/ (a.mode = "required" /\ a.nest \in {"elem", "mapkey", "mapval", "mapval_elem", "nested"} \cup Deep) \/ (a.mode = "required" /\ a.kind = "bytes")
+CanBeAbsent(a) == a.mode \in {"optional", "treq"} \/ (a.mode = "required" /\ a.nest \in {"elem", "mapkey", "mapval", "mapval_elem", "mapparams", "nested"} \cup Deep) \/ (a.mode = "required" /\ a.kind = "bytes")
 \* an empty string cannot be a path segment, and neither can "nothing": the envelope does not send one (the caller of a
 \* method with a path parameter supplies it, whatever the payload type says)
 PayloadVals(a) == {v \in ValsOf(a) : ~(a.loc = "path" /\ v.s = "empty") /\ (v.s = "huge" => a.loc = "body")} \cup (IF CanBeAbsent(a) /\ a.nest \notin Whole /\ a.loc # "path" THEN {Absent} ELSE {})
